@@ -8,7 +8,7 @@ import minutil as M
 import gen_lua
 
 ASSUMPTIONS = ['the lexical rules are Spec/LuaLex.lean (Lua 5.2 + PICO-8 extensions; see C07); programs come from the dialect generator',
-               'renaming correctness (consistency/injectivity/reserved names) is C02; here names may differ arbitrarily']
+               'the renaming must be a one-to-one function within each program; which names are chosen and kept (reserved names, histories) is C02']
 TRUSTED_EXTRA = ['modelled by hand: LuaMinifyTokenWriter.to_lines/_to_chunks/_needs_space, MinifyNameFactory (lua.py); lexer model of C07']
 
 # one representative per token class for the exhaustive adjacency stream
@@ -87,6 +87,11 @@ def compare(res, key, inp, src_spec, out_spec, what):
             ok = x[1] == y[1]
         if not ok:
             res.fail(key, '%s: token %r became %r' % (what, (kx, x[1]), (ky, y[1])), inp)
+            return False
+    inv = {}
+    for k, v in ren.items():
+        if inv.setdefault(v, k) != k:
+            res.fail(key, '%s: identifiers %r and %r both became %r (not a renaming)' % (what, inv[v], k, v), inp)
             return False
     if M.gaps_have_newline(src_spec) != M.gaps_have_newline(out_spec):
         res.fail(key, '%s: a line break between two tokens was added or removed (line-scoped shorthand changes extent)' % what, inp)
